@@ -35,6 +35,7 @@ type modelCfg struct {
 	internalErr int // a failing handler is answered -32603
 	legalID     int // an Invalid Request answer echoes only string / number ids
 	nullRule    int // null argument = "not given" (4d3f28e)
+	nullID      int // a request with "id": null is answered (proposed-fixes/C11-null-id-is-a-request.diff); not part of String()
 }
 
 func (c modelCfg) String() string {
@@ -93,7 +94,13 @@ func (rn *runner) familyFloors() {
 		"events:inputs": 500, "events:OnRequestFailed": 30, "events:OnRequestHandled": 300, "events:header-returned": 80,
 		"events:header-merged-from-several-entries": 10, "events:http:POST": 150, "events:http:gzip-body": 40,
 		"events:http:content-length-set": 40, "events:http:content-type-overridden-by-handler": 2,
-		"log:trace-inputs": 500, "log:line:Received request": 400, "log:line:Failed handing RPC request": 20}
+		"log:trace-inputs": 500, "log:line:Received request": 400, "log:line:Failed handing RPC request": 20,
+		// round 6
+		"gate-seq:request": 20, "gate-seq:notification": 12, "gate-seq:notification-batch": 12, "gate-seq:notification-unknown-method": 12,
+		"gate-seq:handler-panics": 12, "gate-seq:expired-deadline": 12,
+		"ws-loop:request": 60, "ws-loop:notification": 60, "ws-loop:batch": 60, "ws-loop:syntax-error": 60, "ws-loop:mode-1": 80,
+		"ws-loop:mode-2": 80, "ws-loop:trailer>=32K": 50,
+		"tx-rules:invoke": 40, "tx-rules:declare": 40, "tx-rules:deployAccount": 40, "tx-rules:unknown": 40, "tx-rules:accepted": 20, "tx-rules:refused": 150}
 	counts := rn.res.Distribution
 	for k, min := range floors {
 		if counts[k] < min {
@@ -174,6 +181,13 @@ func probe() (modelCfg, []string) {
 	if strings.Contains(string(o.Out), "-32602") && strings.Contains(string(o2.Out), `"result"`) {
 		c.nullRule = 1
 	}
+	// "id": null is a request (answered with id null), a missing id member a notification
+	o = w.handle([]byte(`{"jsonrpc":"2.0","method":"noargs","id":null}`))
+	o2 = w.handle([]byte(`{"jsonrpc":"2.0","method":"noargs"}`))
+	if strings.Contains(string(o.Out), `"result"`) && strings.Contains(string(o.Out), `"id":null`) && len(o2.Out) == 0 {
+		c.nullID = 1
+		notes = append(notes, "the server answers requests with \"id\": null (repair of request-with-null-id-not-answered applied): model switched with `nullfix 1`")
+	}
 	notes = append(notes, "model configuration from probes (peekLimit nullForNilResult silentNotificationErrors internalErrorOnHandlerFailure legalIdEchoOnly nullNotGiven): "+c.String())
 	return c, notes
 }
@@ -193,6 +207,10 @@ func (rn *runner) setWorld(w *World) error {
 	a, err := rn.drv.Ask(fmt.Sprintf("cfg %d %s", bd, rn.cfg.String()))
 	if err != nil || a != "ok" {
 		return fmt.Errorf("driver cfg: %q %v", a, err)
+	}
+	a, err = rn.drv.Ask(fmt.Sprintf("nullfix %d", rn.cfg.nullID))
+	if err != nil || a != "ok" {
+		return fmt.Errorf("driver nullfix: %q %v", a, err)
 	}
 	a, err = rn.drv.Ask(w.tblLine())
 	if err != nil || a != "ok" {
@@ -730,6 +748,7 @@ func main() {
 	// 4a. the admission gate of the HTTP transport (round 4)
 	waitLimit := rn.wsLimit() // runs beside the next stages (one refused connection costs 5 s inside the server)
 	rn.gateTie(r.Fork(4242))
+	rn.gateSequential(r.Fork(4343)) // round 6: one POST at the gate from arrival to return, every kind of POST
 	// 4b. handlers that keep writing to their connection; the websocket connection limit (round 4)
 	rn.connTie()
 	// 4c. RegisterMethods on every handler signature shape (round 4)
@@ -737,6 +756,10 @@ func main() {
 	// 4d. listener calls, headers, logging at trace level (round 5)
 	rn.eventsTie(r.Fork(5150))
 	rn.wsParamsTie()
+	// 4e. the WebSocket read loop on the level of the byte stream: unread frame remainders of every size (round 6)
+	rn.wsLoopTie(r.Fork(6060))
+	// 4f. the conditional parameter rules of the broadcasted transaction through the real rpcv10 validator (round 6)
+	rn.txRulesTie(r.Fork(7070))
 	// 5. request deadlines while batch entries queue for a pool slot
 	rn.deadlines(r.Fork(777))
 	// 6. handlers that fail, over the transports
